@@ -1364,7 +1364,11 @@ static void run_ops(op_t *ops, int nops)
             break; }
         case 'i': { /* the calling program has an interval timer: SIGALRM every <arg> microseconds, handler installed WITHOUT SA_RESTART
                        (blocking system calls made on its behalf come back with EINTR) */
-            struct sigaction sa; memset(&sa, 0, sizeof sa); sa.sa_handler = alarm_noop; sigaction(SIGALRM, &sa, NULL);
+            struct sigaction sa; memset(&sa, 0, sizeof sa); sa.sa_handler = alarm_noop;
+            /* optional second argument 1: the handler IS installed with SA_RESTART -- a transfer that has made progress still comes back
+               short, one that has not is restarted by the kernel */
+            if (op->n > 1 && arg_int(&op->a[1])) sa.sa_flags = SA_RESTART;
+            sigaction(SIGALRM, &sa, NULL);
             struct itimerval it; long us = (long) arg_ll(&op->a[0]);
             it.it_interval.tv_sec = us / 1000000; it.it_interval.tv_usec = us % 1000000; it.it_value = it.it_interval;
             if (setitimer(ITIMER_REAL, &it, NULL) < 0) ev_error("setitimer");
